@@ -67,7 +67,7 @@ Vals(s, d) ==
          IF Card(F, 1) <= 200 THEN Prod(F, 1)
          ELSE LET base == M([i \in 1..Len(F) |-> F[i][1]])
               IN  <<base>> \o Flatten([i \in 1..Len(F) |-> M([a \in 1..Len(F[i]) |-> [base EXCEPT ![i] = F[i][a]]])])
-    [] s.k = "opt"   -> LET X == Vals(s.t, d - 1) IN <<[some |-> FALSE]>> \o [i \in 1..Len(X) |-> [some |-> TRUE, v |-> X[i]]]
+    [] s.k \in {"opt", "eptr"} -> LET X == Vals(s.t, d - 1) IN <<[some |-> FALSE]>> \o [i \in 1..Len(X) |-> [some |-> TRUE, v |-> X[i]]]
     [] s.k = "iface" -> Flatten([j \in 1..Len(s.alts) |->
                            LET X == Vals(s.alts[j].t, d - 1) IN [i \in 1..Len(X) |-> [c |-> s.alts[j].c, v |-> X[i]]]])
     [] s.k = "u256"  -> <<Num(32, 0), Num(32, 1), MaxU(32), [n |-> FALSE, m |-> [i \in 1..18 |-> IF i < 18 THEN i ELSE 1]],
@@ -81,7 +81,7 @@ Rev(s, v) ==
   CASE s.k \in {"slice", "arr"} -> LET c == M([i \in 1..Len(v) |-> Rev(s.e, v[i])]) IN IF s.sort THEN Reverse(c) ELSE c
     [] s.k = "map"    -> Reverse(M([i \in 1..Len(v) |-> <<Rev(s.key, v[i][1]), Rev(s.val, v[i][2])>>]))
     [] s.k = "struct" -> M([i \in 1..Len(v) |-> Rev(s.f[i], v[i])])
-    [] s.k = "opt"    -> IF v.some THEN [some |-> TRUE, v |-> Rev(s.t, v.v)] ELSE v
+    [] s.k \in {"opt", "eptr"} -> IF v.some THEN [some |-> TRUE, v |-> Rev(s.t, v.v)] ELSE v
     [] s.k = "iface"  -> LET A == {j \in 1..Len(s.alts) : s.alts[j].c = v.c}
                          IN  IF A = {} THEN v ELSE [c |-> v.c, v |-> Rev(s.alts[MinOf(A)].t, v.v)]
     [] OTHER -> v
